@@ -119,7 +119,7 @@ theorem stepThread_to_casnew (s : Sys) (t : Thread) (old : Nat) (h : (stepThread
     rw [hp] at h; simp only at h
     split at h
     · simp at h
-    · exact absurd h (adv _)
+    · simp at h
   | cQuiesced b => rw [hp] at h; simp only at h; split at h <;> simp at h
   | cWait b => rw [hp] at h; simp only at h; split at h <;> simp at h
   | cRead b => rw [hp] at h; simp at h
